@@ -3,7 +3,7 @@ import ast
 import re
 
 from ..absint import Explorer, UNKNOWN
-from ..astutil import norm, const, NO, compare, tail, names
+from ..astutil import norm, const, NO, compare, tail, names, fmt_parts, fmt_shape
 from ..index import AnalysisError, walk_own
 from .common import (site, key, calls_to, method_calls, nodes_with, guard_check, sample_polarity, cfg_attr, rname)
 
@@ -177,6 +177,10 @@ def r1(ctx):
 
 def _connection_var(f):
     for n in walk_own(f.node):
+        sh = fmt_shape(n) if isinstance(n, (ast.BinOp, ast.JoinedStr, ast.Call)) else None
+        if sh and sh[0].lower().startswith("connection:") and len(sh[1]) == 1 and isinstance(sh[1][0], ast.Name):
+            return sh[1][0].id
+    for n in walk_own(f.node):
         if isinstance(n, ast.BinOp) and isinstance(n.op, ast.Mod) and isinstance(n.left, ast.Constant) and isinstance(n.left.value, str) \
                 and n.left.value.lower().startswith("connection:") and isinstance(n.right, ast.Name):
             return n.right.id
@@ -303,6 +307,10 @@ def r3(ctx):
                     emitters.append((f, n))
             elif isinstance(n, ast.Call) and isinstance(n.func, ast.Name) and n.func.id == "hex":
                 emitters.append((f, n))
+            elif isinstance(n, ast.JoinedStr):
+                parts = fmt_parts(n) or []
+                if any(not isinstance(p_, str) and p_[2] in ("x", "X") for p_ in parts) and any(isinstance(p_, str) and "\r\n" in p_ for p_ in parts):
+                    emitters.append((f, n))
     ctx.floor("C02.R3", "chunk-size emitters", len(emitters), 1)
     for f, n in emitters:
         ctx.fn(f)
@@ -312,7 +320,9 @@ def r3(ctx):
         # which value is formatted?
         par = f.module.parents.get(n)
         size_names = set()
-        if isinstance(par, ast.BinOp) and isinstance(par.op, ast.Mod):
+        if isinstance(n, ast.JoinedStr):
+            size_names = set(x for p_ in fmt_parts(n) if not isinstance(p_, str) and p_[2] in ("x", "X") for x in names(p_[1]))
+        elif isinstance(par, ast.BinOp) and isinstance(par.op, ast.Mod):
             size_names = names(par.right)
         elif isinstance(par, ast.Call):
             for a in par.args:
